@@ -7,3 +7,656 @@ Local Open Scope Z_scope.
 (* motions never change the text: a program returns the buffer it was given *)
 Lemma run_prog_text b rows cs b' s : run_prog b rows cs = Some (b', s) -> b' = b.
 Proof. unfold run_prog. destruct (run b rows cs init_vst); intro H; inversion H; reflexivity. Qed.
+
+(* ---------- ren_noeol puts any non-negative offset on a real character ---------- *)
+Definition off_ok (l : line) (o : Z) : Prop := 0 <= o /\ (o < slen l - 1 \/ (slen l = 1 /\ o = 0)).
+
+Lemma wf_slen (l : line) (body : list chr) : l = body ++ [[10%N]] -> slen l = Z.of_nat (length body) + 1.
+Proof. intros ->. unfold slen. rewrite app_length. cbn. lia. Qed.
+
+Lemma wf_chr_body (body : list chr) o : Forall (fun c => b0 c <> 10%N) body -> 0 <= o < Z.of_nat (length body) ->
+  b0 (chr_at (body ++ [[10%N]]) o) <> 10%N.
+Proof.
+  intros HF Ho. unfold chr_at. destruct (Z.ltb_spec o 0); [lia|].
+  rewrite app_nth1 by lia. rewrite Forall_forall in HF. apply HF. apply nth_In. lia.
+Qed.
+Lemma wf_chr_last (body : list chr) : b0 (chr_at (body ++ [[10%N]]) (Z.of_nat (length body))) = 10%N.
+Proof.
+  unfold chr_at. destruct (Z.ltb_spec (Z.of_nat (length body)) 0); [lia|].
+  rewrite Nat2Z.id, app_nth2, Nat.sub_diag by lia. reflexivity.
+Qed.
+
+Lemma ren_noeol_ok l o : line_wf l -> 0 <= o -> off_ok l (ren_noeol (Some l) o).
+Proof.
+  intros (body & E & HF) Ho. pose proof (wf_slen l body E) as Hn. unfold off_ok, ren_noeol.
+  set (n := slen l) in *. clearbody n.
+  set (o1 := if o >=? n then Z.max 0 (n - 1) else o).
+  assert (H1 : 0 <= o1 <= n - 1) by (unfold o1; destruct (Z.geb_spec o n); lia).
+  clearbody o1.
+  destruct (Z.eq_dec o1 (n - 1)) as [He|Hne].
+  - assert (Hb : b0 (chr_at l o1) = 10%N).
+    { rewrite He, E. replace (n - 1) with (Z.of_nat (length body)) by lia. apply wf_chr_last. }
+    rewrite Hb. cbn [N.eqb Pos.eqb]. destruct (Z.ltb_spec 0 o1); cbn [andb]; lia.
+  - assert (Hb : b0 (chr_at l o1) <> 10%N) by (rewrite E; apply wf_chr_body; [exact HF|lia]).
+    apply N.eqb_neq in Hb. rewrite Hb, andb_false_r. lia.
+Qed.
+
+Lemma ren_noeol_none o : 0 <= o -> ren_noeol None o = 0.
+Proof. intro H. unfold ren_noeol. destruct (Z.geb_spec o 0); [|lia]. cbn. reflexivity. Qed.
+
+Lemma ren_noeol_nonneg ol o : 0 <= o -> 0 <= ren_noeol ol o.
+Proof.
+  intro H. unfold ren_noeol.
+  set (n := match ol with Some l => slen l | None => 0 end).
+  set (o1 := if o >=? n then Z.max 0 (n - 1) else o).
+  assert (0 <= o1) by (unfold o1; destruct (Z.geb_spec o n); lia). clearbody o1.
+  destruct (0 <? o1) eqn:E; cbn [andb]; [|lia].
+  destruct (N.eqb _ 10); lia.
+Qed.
+
+(* on a valid cursor ren_noeol is the identity *)
+Lemma ren_noeol_id l o : line_wf l -> off_ok l o -> ren_noeol (Some l) o = o.
+Proof.
+  intros (body & E & HF) (H0 & H1). pose proof (wf_slen l body E) as Hn. unfold ren_noeol.
+  destruct (Z.geb_spec o (slen l)).
+  - destruct H1 as [H1|[H1 H2]]; [lia|]. subst o. rewrite H1. cbn. reflexivity.
+  - destruct H1 as [H1|[H1 H2]].
+    + assert (Hb : b0 (chr_at l o) <> 10%N) by (rewrite E; apply wf_chr_body; [exact HF|lia]).
+      apply N.eqb_neq in Hb. rewrite Hb, andb_false_r. reflexivity.
+    + subst o. reflexivity.
+Qed.
+
+(* ---------- getl ---------- *)
+Lemma getl_some b r l : getl b r = Some l -> 0 <= r < blen b /\ In l b.
+Proof.
+  unfold getl, blen. destruct (Z.ltb_spec r 0); [discriminate|]. intro E.
+  split; [|eapply nth_error_In; eauto].
+  assert (Z.to_nat r < length b)%nat by (apply nth_error_Some; congruence). lia.
+Qed.
+Lemma getl_none b r : getl b r = None -> r < 0 \/ blen b <= r.
+Proof.
+  unfold getl, blen. destruct (Z.ltb_spec r 0); [lia|]. intro E. apply nth_error_None in E. lia.
+Qed.
+Lemma getl_wf b r l : buf_wf b -> getl b r = Some l -> line_wf l.
+Proof. intros HW E. apply getl_some in E. unfold buf_wf in HW. rewrite Forall_forall in HW. apply HW, E. Qed.
+
+(* ---------- vi_wfix yields a valid cursor from any non-negative offset ---------- *)
+Lemma wfix_row_ok b r : let len := blen b in
+  let row := if (r <? 0) || (r >=? len) then (if len =? 0 then 0 else len - 1) else r in
+  (b = [] /\ row = 0) \/ (0 <= row < len).
+Proof.
+  cbv zeta. unfold blen. destruct b as [|x b]; [left|right].
+  - split; [reflexivity|]. cbn. destruct (Z.ltb_spec r 0); cbn; [reflexivity|]. destruct (Z.geb_spec r 0); [reflexivity|lia].
+  - cbn [length]. destruct (Z.ltb_spec r 0); cbn [orb].
+    + destruct (Z.eqb_spec (Z.of_nat (S (length b))) 0); lia.
+    + destruct (Z.geb_spec r (Z.of_nat (S (length b)))).
+      * destruct (Z.eqb_spec (Z.of_nat (S (length b))) 0); lia.
+      * lia.
+Qed.
+
+Lemma getl_in_range b r : 0 <= r < blen b -> exists l, getl b r = Some l.
+Proof.
+  intro H. unfold getl, blen in *. destruct (Z.ltb_spec r 0); [lia|].
+  destruct (nth_error b (Z.to_nat r)) eqn:E; [eauto|]. apply nth_error_None in E. lia.
+Qed.
+
+Lemma vi_wfix_ok b rows s : buf_wf b -> 0 <= v_off s ->
+  cursor_ok b (v_row (vi_wfix b rows s)) (v_off (vi_wfix b rows s)).
+Proof.
+  intros HW Ho. unfold vi_wfix. cbn [v_row v_off].
+  set (row := if (v_row s <? 0) || (v_row s >=? blen b) then (if blen b =? 0 then 0 else blen b - 1) else v_row s).
+  destruct (wfix_row_ok b (v_row s)) as [[Hb Hr]|Hr]; fold row in Hr.
+  - subst b. unfold cursor_ok. rewrite Hr. cbn [getl]. cbn. rewrite ren_noeol_none by lia. auto.
+  - destruct (getl_in_range b row Hr) as (l & El). unfold cursor_ok. rewrite El.
+    apply ren_noeol_ok; [eapply getl_wf; eauto|lia].
+Qed.
+
+(* a valid cursor is a fixed point of vi_wfix (row and offset) *)
+Lemma vi_wfix_id b rows s : buf_wf b -> cursor_ok b (v_row s) (v_off s) ->
+  v_row (vi_wfix b rows s) = v_row s /\ v_off (vi_wfix b rows s) = v_off s.
+Proof.
+  intros HW HC. unfold vi_wfix, cursor_ok in *. cbn [v_row v_off].
+  destruct (getl b (v_row s)) as [l|] eqn:El.
+  - pose proof (getl_some _ _ _ El) as [Hr _].
+    destruct (Z.ltb_spec (v_row s) 0); [lia|]. destruct (Z.geb_spec (v_row s) (blen b)); [lia|]. cbn [orb].
+    rewrite El. split; [reflexivity|]. apply ren_noeol_id; [eapply getl_wf; eauto|exact HC].
+  - destruct HC as (Hb & Hr & Ho). subst b. rewrite Hr, Ho. cbn. auto.
+Qed.
+
+(* ---------- every motion returns a non-negative offset, or -1 for a line motion ---------- *)
+Lemma lbuf_eol_nonneg b r : 0 <= lbuf_eol b r.
+Proof. unfold lbuf_eol. destruct (getl b r) as [l|]; [destruct (Z.eqb_spec (slen l) 0); unfold slen in *; lia|cbn; lia]. Qed.
+
+Lemma lbuf_next_nonneg b dir r o : 0 <= o -> 0 <= snd (lbuf_next b dir r o).
+Proof.
+  intro H. unfold lbuf_next.
+  set (r1 := if (dir <? 0) && (r >=? blen b) then Z.max 0 (blen b - 1) else r).
+  unfold lbuf_lnnext. destruct (getl b r1) as [l|].
+  - destruct ((o + dir <? 0) || (o + dir >=? slen l)) eqn:E.
+    + destruct (getl b (r1 + dir)); cbn [snd]; [|lia]. destruct (0 <? dir); [lia|apply lbuf_eol_nonneg].
+    + cbn [snd]. apply orb_false_iff in E. lia.
+  - destruct (getl b (r1 + dir)); cbn [snd]; [|lia]. destruct (0 <? dir); [lia|apply lbuf_eol_nonneg].
+Qed.
+
+Definition nn3 (x : option st3) : Prop := match x with Some (_, _, o) => 0 <= o | None => True end.
+
+Lemma wordlast_loop_nn fuel : forall b kind dir r o, 0 <= o -> nn3 (wordlast_loop fuel b kind dir r o).
+Proof.
+  induction fuel as [|f IH]; intros; cbn [wordlast_loop]; [exact I|].
+  destruct (kmatch b kind r o).
+  - pose proof (lbuf_next_nonneg b dir r o H). destruct (lbuf_next b dir r o) as [[[] r'] o']; cbn [snd] in *.
+    + exact H0.
+    + apply IH, H0.
+  - pose proof (lbuf_next_nonneg b (- dir) r o H). destruct (lbuf_next b (- dir) r o) as [[s r'] o']. exact H0.
+Qed.
+Lemma wordlast_nn fuel b kind dir r o : 0 <= o -> nn3 (lbuf_wordlast fuel b kind dir r o).
+Proof.
+  intro H. unfold lbuf_wordlast. destruct (_ || _); [exact H|]. apply wordlast_loop_nn, H.
+Qed.
+Lemma wordbeg_loop_nn fuel : forall b dir nl r o, 0 <= o -> nn3 (wordbeg_loop fuel b dir nl r o).
+Proof.
+  induction fuel as [|f IH]; intros; cbn [wordbeg_loop]; [exact I|].
+  destruct (uc_isspace _); [|exact H].
+  destruct (_ =? 2); [exact H|].
+  pose proof (lbuf_next_nonneg b dir r o H). destruct (lbuf_next b dir r o) as [[[] r'] o']; cbn [snd] in *.
+  - exact H0.
+  - apply IH, H0.
+Qed.
+Lemma wordbeg_nn fuel b big dir r o : 0 <= o -> nn3 (lbuf_wordbeg fuel b big dir r o).
+Proof.
+  intro H. unfold lbuf_wordbeg.
+  pose proof (wordlast_nn fuel b (if big then 3%N else kindof b r o) dir r o H) as H1.
+  destruct (lbuf_wordlast _ _ _ _ _ _) as [[[s r1] o1]|]; [|exact I]. cbn in H1.
+  pose proof (lbuf_next_nonneg b dir r1 o1 H1). destruct (lbuf_next b dir r1 o1) as [[[] r'] o']; cbn [snd] in *.
+  - exact H0.
+  - apply wordbeg_loop_nn, H0.
+Qed.
+Definition nn4 (x : option (bool * st3)) : Prop := match x with Some (_, (_, _, o)) => 0 <= o | None => True end.
+Lemma wordend_loop_nn fuel : forall b dir nl r o, 0 <= o -> nn4 (wordend_loop fuel b dir nl r o).
+Proof.
+  induction fuel as [|f IH]; intros; cbn [wordend_loop]; [exact I|].
+  destruct (uc_isspace _); [|exact H].
+  pose proof (lbuf_next_nonneg b dir r o H). destruct (lbuf_next b dir r o) as [[[] r'] o']; cbn [snd] in *.
+  - exact H0.
+  - destruct (_ =? 2).
+    + destruct (dir <? 0); [|exact H0].
+      pose proof (lbuf_next_nonneg b (- dir) r' o' H0). destruct (lbuf_next b (- dir) r' o') as [[s2 r2] o2]. exact H1.
+    + apply IH, H0.
+Qed.
+Lemma wordend_nn fuel b big dir r o : 0 <= o -> nn3 (lbuf_wordend fuel b big dir r o).
+Proof.
+  intro H. unfold lbuf_wordend.
+  pose proof (lbuf_next_nonneg b dir r o H) as Hn.
+  assert (HS : forall nl r o, 0 <= o ->
+    nn3 (match wordend_loop fuel b dir nl r o with
+         | None => None
+         | Some (true, res) => Some res
+         | Some (false, (_, r, o)) =>
+             match lbuf_wordlast fuel b (if big then 3%N else kindof b r o) dir r o with
+             | None => None
+             | Some (true, r', o') => Some (true, r', o')
+             | Some (false, r', o') => Some (false, r', o')
+             end
+         end)).
+  { intros nl r0 o0 H0. pose proof (wordend_loop_nn fuel b dir nl r0 o0 H0) as HL.
+    destruct (wordend_loop fuel b dir nl r0 o0) as [[[] [[s1 r1] o1]]|]; cbn in HL; [exact HL| |exact I].
+    pose proof (wordlast_nn fuel b (if big then 3%N else kindof b r1 o1) dir r1 o1 HL) as HW.
+    destruct (lbuf_wordlast _ _ _ _ _ _) as [[[[] r2] o2]|]; exact HW. }
+  destruct (negb (uc_isspace (lchr b r o))).
+  - destruct (lbuf_next b dir r o) as [[[] r'] o'] eqn:E; cbn [snd] in Hn.
+    + exact Hn.
+    + apply HS, Hn.
+  - apply HS, H.
+Qed.
+
+Lemma pair_loop_nn fuel : forall b dir opn cls dep r o r' o', 0 <= o ->
+  pair_loop fuel b dir opn cls dep r o = Some (Some (r', o')) -> 0 <= o'.
+Proof.
+  induction fuel as [|f IH]; intros until o'; intros H E; cbn [pair_loop] in E; [discriminate|].
+  pose proof (lbuf_next_nonneg b dir r o H). destruct (lbuf_next b dir r o) as [[[] r1] o1]; cbn [snd] in *; [discriminate|].
+  destruct (_ =? 0) in E.
+  - inversion E; subst; assumption.
+  - eapply IH; [|exact E]. assumption.
+Qed.
+Lemma pair_scan_nn fuel : forall b r o o' c, 0 <= o -> pair_scan fuel b r o = Some (o', c) -> 0 <= o'.
+Proof.
+  induction fuel as [|f IH]; intros until c; intros H E; cbn [pair_scan] in E; [discriminate|].
+  destruct (N.eqb _ 0); [discriminate|]. destruct (index_of _ pairs 0).
+  - inversion E; subst; assumption.
+  - eapply IH; [|exact E]. lia.
+Qed.
+
+Lemma find_nth_bounds cs : forall l n i j, find_nth cs n l i = Some j -> i <= j < i + Z.of_nat (length l).
+Proof.
+  induction l as [|c l IH]; intros n i j E; cbn [find_nth] in E; [discriminate|]. cbn [length].
+  destruct (N.eqb (code c) (code cs)).
+  - destruct n as [|[|n']].
+    + inversion E; lia.
+    + inversion E; lia.
+    + apply IH in E. lia.
+  - apply IH in E. lia.
+Qed.
+
+Lemma findchar_nn b cs cmd n r o o' : 0 <= o -> lbuf_findchar b cs cmd n r o = Some o' -> 0 <= o'.
+Proof.
+  intros H E. unfold lbuf_findchar in E. destruct (getl b r) as [l|]; [|discriminate].
+  destruct (Z.abs n =? 0); [inversion E; lia|].
+  destruct (0 <? _).
+  - destruct (find_nth _ _ _ _) eqn:F; [|discriminate]. apply find_nth_bounds in F. inversion E. destruct (is_tT cmd); lia.
+  - destruct (find_nth _ _ _ _) eqn:F; [|discriminate]. apply find_nth_bounds in F.
+    rewrite rev_length, firstn_length in F. inversion E. destruct (is_tT cmd); lia.
+Qed.
+
+Lemma iter_break_inv {A} (P : A -> Prop) (step : A -> option (bool * A)) :
+  (forall x s y, P x -> step x = Some (s, y) -> P y) ->
+  forall n x y, P x -> iter_break n step x = Some y -> P y.
+Proof.
+  intros HS. induction n as [|n IH]; intros x y HP E; cbn [iter_break] in E.
+  - inversion E; subst; exact HP.
+  - destruct (step x) as [[[] z]|] eqn:Es; [| |discriminate].
+    + inversion E; subst. eapply HS; eauto.
+    + eapply IH; [|exact E]. eapply HS; eauto.
+Qed.
+
+Lemma wstep_nn (f : Z -> Z -> option st3) : (forall r o, 0 <= o -> nn3 (f r o)) ->
+  forall x s y, 0 <= snd x -> wstep f x = Some (s, y) -> 0 <= snd y.
+Proof.
+  intros Hf x s y Hx E. unfold wstep in E. specialize (Hf (fst x) (snd x) Hx).
+  destruct (f (fst x) (snd x)) as [[[s1 r1] o1]|]; [|discriminate]. inversion E; subst. exact Hf.
+Qed.
+
+Lemma ren_off_nonneg l p : 0 <= ren_off l p.
+Proof. unfold ren_off. destruct (Z.leb_spec 0 (last_index (positions l) (pos_prev (positions l) p true) 0 (-1))); lia. Qed.
+
+Lemma count_space_nonneg l : 0 <= count_space l.
+Proof. induction l as [|c l IH]; cbn [count_space]; [lia|]. destruct (uc_isspace c); lia. Qed.
+
+Lemma vi_motion_off b rows top cl cc pc has cnt k row off r o cl' cc' pc' :
+  0 <= off -> vi_motion b rows top cl cc pc has cnt k row off = MvOk r o cl' cc' pc' -> 0 <= o \/ o = -1.
+Proof.
+  intros H E. unfold vi_motion in E.
+  destruct (vi_motionln b rows top has cnt k row) as [[r1|]|]; [inversion E; lia|discriminate|].
+  assert (OK : forall p : option (Z * Z), (forall y, p = Some y -> 0 <= snd y) ->
+     match p with Some (r0, o0) => MvOk r0 o0 cl cc pc | None => MvFuel end = MvOk r o cl' cc' pc' -> 0 <= o \/ o = -1).
+  { intros p Hp E1. destruct p as [[r0 o0]|]; [|discriminate]. inversion E1; subst. left. apply (Hp (r, o) eq_refl). }
+  assert (FC : forall cs cmd n, match lbuf_findchar b cs cmd n row off with Some o0 => MvOk row o0 cs cmd pc | None => MvFail cs cmd end
+                 = MvOk r o cl' cc' pc' -> 0 <= o \/ o = -1).
+  { intros cs cmd n E1. destruct (lbuf_findchar b cs cmd n row off) eqn:F; [|discriminate]. inversion E1; subst.
+    left. eapply findchar_nn; eauto. }
+  assert (W : forall f : Z -> Z -> option st3, (forall r o, 0 <= o -> nn3 (f r o)) ->
+            forall y, iter_break (Z.to_nat cnt) (wstep f) (row, off) = Some y -> 0 <= snd y).
+  { intros f Hf y Ey. eapply (iter_break_inv (fun x => 0 <= snd x)); [apply wstep_nn, Hf| |exact Ey]. exact H. }
+  destruct k; try discriminate; try (eapply FC; exact E);
+    try (eapply OK; [|exact E]; intros y Ey; eapply W; [|exact Ey]; intros; first [apply wordend_nn|apply wordbeg_nn]; assumption).
+  - (* h *) eapply OK; [|exact E]. intros y Ey. eapply (iter_break_inv (fun x => 0 <= snd x)); [| |exact Ey]; [|exact H].
+    intros [r0 o0] s y0 Hx Es. unfold vi_nextcol in Es. destruct (getl b r0); [|inversion Es; subst; exact Hx].
+    destruct (_ <? 0); inversion Es; subst; [exact Hx|]. cbn. apply ren_off_nonneg.
+  - (* l *) eapply OK; [|exact E]. intros y Ey. eapply (iter_break_inv (fun x => 0 <= snd x)); [| |exact Ey]; [|exact H].
+    intros [r0 o0] s y0 Hx Es. unfold vi_nextcol in Es. destruct (getl b r0); [|inversion Es; subst; exact Hx].
+    destruct (_ <? 0); inversion Es; subst; [exact Hx|]. cbn. apply ren_off_nonneg.
+  - (* 0 *) inversion E; lia.
+  - (* ^ *) inversion E; subst. left. unfold lbuf_indents. destruct (getl b _); [apply count_space_nonneg|lia].
+  - (* $ *) inversion E. left. apply lbuf_eol_nonneg.
+  - (* | *) inversion E; subst. left. unfold vi_col2off. destruct (getl b _); [apply ren_off_nonneg|lia].
+  - (* ; *) destruct cl; [discriminate|]. eapply FC; exact E.
+  - (* , *) destruct cl; [discriminate|]. eapply FC; exact E.
+  - (* % *) destruct (lbuf_pair (mfuel b) b row off) as [[[r0 o0]|]|] eqn:P; try discriminate. inversion E; subst. left.
+    unfold lbuf_pair in P. destruct (pair_scan _ b row off) as [[o1 c]|] eqn:S1; [|discriminate].
+    apply pair_scan_nn in S1; [|exact H]. destruct (index_of c pairs 0); [|discriminate].
+    eapply pair_loop_nn; [|exact P]. exact S1.
+  - (* { *) eapply OK; [|exact E]. intros y Ey. eapply (iter_break_inv (fun x => 0 <= snd x)); [| |exact Ey]; [|exact H].
+    intros x s y0 _ Es. inversion Es. cbn. lia.
+  - (* } *) eapply OK; [|exact E]. intros y Ey. eapply (iter_break_inv (fun x => 0 <= snd x)); [| |exact Ey]; [|exact H].
+    intros x s y0 _ Es. inversion Es. cbn. lia.
+  - (* space *) eapply OK; [|exact E]. intros y Ey. eapply (iter_break_inv (fun x => 0 <= snd x)); [| |exact Ey]; [|exact H].
+    intros [r0 o0] s y0 Hx Es. unfold vi_nextoff, lbuf_lnnext in Es. destruct (getl b r0); [|inversion Es; subst; exact Hx].
+    destruct ((_ <? 0) || _) eqn:B; inversion Es; subst; [exact Hx|]. cbn. apply orb_false_iff in B. lia.
+  - (* ^H *) eapply OK; [|exact E]. intros y Ey. eapply (iter_break_inv (fun x => 0 <= snd x)); [| |exact Ey]; [|exact H].
+    intros [r0 o0] s y0 Hx Es. unfold vi_nextoff, lbuf_lnnext in Es. destruct (getl b r0); [|inversion Es; subst; exact Hx].
+    destruct ((_ <? 0) || _) eqn:B; inversion Es; subst; [exact Hx|]. cbn. apply orb_false_iff in B. lia.
+Qed.
+
+(* ---------- C07_cursor_valid ---------- *)
+Lemma cursor_ok_off b r o : cursor_ok b r o -> 0 <= o.
+Proof. unfold cursor_ok. destruct (getl b r); intros; lia. Qed.
+
+Lemma vi_col2off_nonneg b r c : 0 <= vi_col2off b r c.
+Proof. unfold vi_col2off. destruct (getl b r); [apply ren_off_nonneg|lia]. Qed.
+Lemma lbuf_indents_nonneg b r : 0 <= lbuf_indents b r.
+Proof. unfold lbuf_indents. destruct (getl b r); [apply count_space_nonneg|lia]. Qed.
+
+Lemma do_motion_ok b rows a1 a2 k s s' : buf_wf b -> 0 <= v_off s ->
+  do_motion b rows a1 a2 k s = Some s' -> cursor_ok b (v_row s') (v_off s').
+Proof.
+  intros HW Ho E. unfold do_motion in E.
+  pose proof (ren_noeol_nonneg (getl b (v_row s)) (v_off s) Ho) as Hn.
+  destruct (vi_motion _ _ _ _ _ _ _ _ _ _ _) as [cl cc|r o cl cc pc|] eqn:M; [| |discriminate].
+  - inversion E; subst. apply vi_wfix_ok; [exact HW|exact Ho].
+  - inversion E; subst. apply vi_wfix_ok; [exact HW|]. cbn [v_off]. apply ren_noeol_nonneg.
+    apply vi_motion_off in M; [|exact Hn].
+    destruct (is_jk k); [apply vi_col2off_nonneg|].
+    rewrite andb_true_r. destruct (Z.ltb_spec o 0); [apply lbuf_indents_nonneg|lia].
+Qed.
+
+Lemma do_goto_ok b rows n s : buf_wf b -> cursor_ok b (v_row s) (v_off s) ->
+  cursor_ok b (v_row (do_goto b rows n s)) (v_off (do_goto b rows n s)).
+Proof.
+  intros HW HC. unfold do_goto. destruct (_ && _); [|exact HC]. cbn [v_row v_off].
+  apply vi_wfix_ok; [exact HW|cbn; lia].
+Qed.
+
+Lemma step_ok b rows c s s' : buf_wf b -> cursor_ok b (v_row s) (v_off s) -> step b rows c s = Some s' ->
+  cursor_ok b (v_row s') (v_off s').
+Proof.
+  intros HW HC E. destruct c as [cnt k|n]; cbn [step] in E.
+  - eapply do_motion_ok; eauto. eapply cursor_ok_off; eauto.
+  - inversion E; subst. apply do_goto_ok; assumption.
+Qed.
+
+Lemma wf_slen_pos l : line_wf l -> 1 <= slen l.
+Proof. intros (body & E & _). rewrite (wf_slen l body E). lia. Qed.
+
+Lemma init_ok b : buf_wf b -> cursor_ok b (v_row init_vst) (v_off init_vst).
+Proof.
+  intro HW. cbn. unfold cursor_ok. destruct (getl b 0) as [l|] eqn:E.
+  - pose proof (wf_slen_pos l (getl_wf _ _ _ HW E)). lia.
+  - destruct b; [auto|]. cbn in E. discriminate.
+Qed.
+
+Lemma run_ok b rows : buf_wf b -> forall cs s s', cursor_ok b (v_row s) (v_off s) -> run b rows cs s = Some s' ->
+  cursor_ok b (v_row s') (v_off s').
+Proof.
+  intro HW. induction cs as [|c cs IH]; intros s s' HC E; cbn [run] in E.
+  - inversion E; subst; exact HC.
+  - destruct (step b rows c s) as [s1|] eqn:S1; [|discriminate]. eapply IH; [|exact E]. eapply step_ok; eauto.
+Qed.
+
+(* after every program of motions (each followed by the vi_wfix clamp) the cursor is on an existing
+   character of an existing line, never on the terminator of a non-empty line *)
+Lemma cursor_valid b rows cs b' s : buf_wf b -> run_prog b rows cs = Some (b', s) -> cursor_ok b (v_row s) (v_off s).
+Proof.
+  intros HW E. unfold run_prog in E. destruct (run b rows cs init_vst) as [s1|] eqn:R; [|discriminate].
+  inversion E; subst. eapply run_ok; [exact HW|apply init_ok, HW|exact R].
+Qed.
+
+(* cursor_ok unfolded: what it says about the character under the cursor *)
+Lemma cursor_ok_char b r o : buf_wf b -> cursor_ok b r o ->
+  match getl b r with
+  | Some l => 0 <= o < slen l /\ (b0 (chr_at l o) = 10%N -> l = [[10%N]])
+  | None => b = [] /\ r = 0 /\ o = 0
+  end.
+Proof.
+  intros HW HC. unfold cursor_ok in HC. destruct (getl b r) as [l|] eqn:E; [|exact HC].
+  destruct (getl_wf _ _ _ HW E) as (body & El & HF). pose proof (wf_slen l body El) as Hn.
+  destruct HC as (H0 & [H1|[H1 H2]]).
+  - split; [lia|]. intro Hb. exfalso. revert Hb. rewrite El. apply wf_chr_body; [exact HF|lia].
+  - split; [lia|]. intros _. destruct body; [exact El|]. cbn [length] in Hn. lia.
+Qed.
+
+(* ---------- C07_fail_in_place ---------- *)
+Definition m_cnt (a1 a2 : Z) : Z := (if a1 =? 0 then 1 else a1) * (if a2 =? 0 then 1 else a2).
+Definition m_has (a1 a2 : Z) : bool := negb (a1 =? 0) || negb (a2 =? 0).
+
+Lemma do_motion_fail b rows a1 a2 k s cl cc : buf_wf b -> cursor_ok b (v_row s) (v_off s) ->
+  vi_motion b rows (v_top s) (v_cl s) (v_cc s) (v_pcol s) (m_has a1 a2) (m_cnt a1 a2) k (v_row s)
+            (ren_noeol (getl b (v_row s)) (v_off s)) = MvFail cl cc ->
+  exists s', do_motion b rows a1 a2 k s = Some s' /\ v_row s' = v_row s /\ v_off s' = v_off s /\ v_col s' = v_col s.
+Proof.
+  intros HW HC M. unfold do_motion. fold (m_cnt a1 a2). fold (m_has a1 a2). rewrite M.
+  eexists. split; [reflexivity|].
+  pose proof (vi_wfix_id b rows (mk_vst (v_row s) (v_off s) (v_col s) (v_top s) cl cc (v_pcol s)) HW HC) as [H1 H2].
+  cbn [v_row v_off] in H1, H2. auto.
+Qed.
+
+(* when does the model report failure: exactly for f F t T ; , without target, ; , without a previous
+   find, % without a bracket / match, and a percentage above 100 *)
+Lemma vi_motion_fail_cases b rows top cl cc pc has cnt k row off cl' cc' :
+  vi_motion b rows top cl cc pc has cnt k row off = MvFail cl' cc' ->
+  match k with
+  | Kf c => lbuf_findchar b c 102%N cnt row off = None
+  | KF c => lbuf_findchar b c 70%N cnt row off = None
+  | Kt c => lbuf_findchar b c 116%N cnt row off = None
+  | KT c => lbuf_findchar b c 84%N cnt row off = None
+  | Ksemi => cl = [] \/ lbuf_findchar b cl cc cnt row off = None
+  | Kcomma => cl = [] \/ lbuf_findchar b cl cc (- cnt) row off = None
+  | Kpct => (has = true /\ 100 < cnt) \/ (has = false /\ lbuf_pair (mfuel b) b row off = Some None)
+  | _ => False
+  end.
+Proof.
+  intro E. unfold vi_motion in E.
+  destruct k; cbn [vi_motionln] in E; try discriminate;
+    try (destruct (iter_break _ _ _) as [[? ?]|]; discriminate);
+    try (destruct (lbuf_findchar _ _ _ _ _ _); [discriminate|reflexivity]).
+  - destruct cl; [left; reflexivity|right]. destruct (lbuf_findchar _ _ _ _ _ _); [discriminate|reflexivity].
+  - destruct cl; [left; reflexivity|right]. destruct (lbuf_findchar _ _ _ _ _ _); [discriminate|reflexivity].
+  - destruct has.
+    + left. destruct (Z.ltb_spec 100 cnt); [auto|discriminate].
+    + right. split; [reflexivity|]. destruct (lbuf_pair _ _ _ _) as [[[? ?]|]|]; try discriminate. reflexivity.
+Qed.
+
+(* ---------- f F t T ; , : the n-th occurrence ---------- *)
+Definition count_m (cs : chr) (l : list chr) : nat := length (filter (fun c => N.eqb (code c) (code cs)) l).
+
+Lemma find_nth_some cs : forall l n i j, (1 <= n)%nat -> find_nth cs n l i = Some j ->
+  exists k, j = i + Z.of_nat k /\ (k < length l)%nat /\ code (nth k l []) = code cs /\ count_m cs (firstn k l) = (n - 1)%nat.
+Proof.
+  induction l as [|c l IH]; intros n i j Hn E; cbn [find_nth] in E; [discriminate|].
+  destruct (N.eqb (code c) (code cs)) eqn:Ec.
+  - destruct n as [|[|n']]; [lia| |].
+    + inversion E; subst. exists 0%nat. cbn. repeat split; try lia; try (apply N.eqb_eq, Ec).
+    + apply IH in E; [|lia]. destruct E as (k & -> & Hk & Hc & Hm). exists (S k). cbn [length nth firstn].
+      repeat split; try lia; try exact Hc. unfold count_m in *. cbn [filter]. rewrite Ec. cbn [length]. lia.
+  - apply IH in E; [|lia]. destruct E as (k & -> & Hk & Hc & Hm). exists (S k). cbn [length nth firstn].
+    repeat split; try lia; try exact Hc. unfold count_m in *. cbn [filter]. rewrite Ec. exact Hm.
+Qed.
+Lemma find_nth_none cs : forall l n i, (1 <= n)%nat -> find_nth cs n l i = None -> (count_m cs l < n)%nat.
+Proof.
+  induction l as [|c l IH]; intros n i Hn E; cbn [find_nth] in E; [cbn; lia|].
+  unfold count_m in *. cbn [filter]. destruct (N.eqb (code c) (code cs)) eqn:Ec.
+  - destruct n as [|[|n']]; [lia|discriminate|]. apply IH in E; [|lia]. cbn [length]. lia.
+  - apply IH in E; [|lia]. exact E.
+Qed.
+
+(* forward search (f, t, and , after F/T): the target is the n-th character with the wanted code
+   point strictly after the cursor on this line; t stops one short; failure iff fewer than n *)
+Lemma findchar_forward b cs cmd n r o l : getl b r = Some l -> 0 <= o -> n <> 0 ->
+  (if n <? 0 then negb (is_ft cmd) else is_ft cmd) = true ->
+  let rest := skipn (Z.to_nat (o + 1)) l in
+  let m := Z.to_nat (Z.abs n) in
+  match lbuf_findchar b cs cmd n r o with
+  | Some o' => exists k, (k < length rest)%nat /\ code (nth k rest []) = code cs /\ count_m cs (firstn k rest) = (m - 1)%nat /\
+                         o' = o + 1 + Z.of_nat k - (if is_tT cmd then 1 else 0)
+  | None => (count_m cs rest < m)%nat
+  end.
+Proof.
+  intros El Ho Hn Hd rest m. unfold lbuf_findchar. rewrite El.
+  assert (Hdir : (0 <? (if n <? 0 then - (if is_ft cmd then 1 else -1) else (if is_ft cmd then 1 else -1))) = true).
+  { destruct (n <? 0); destruct (is_ft cmd); cbn in *; congruence. }
+  rewrite Hdir. destruct (Z.eqb_spec (Z.abs n) 0); [lia|].
+  fold rest. fold m. destruct (find_nth cs m rest 0) as [j|] eqn:F.
+  - apply find_nth_some in F; [|lia]. destruct F as (k & -> & Hk & Hc & Hm). exists k. repeat split; auto.
+    destruct (is_tT cmd); lia.
+  - eapply find_nth_none; [|exact F]. lia.
+Qed.
+(* backward search (F, T, and , after f/t) *)
+Lemma findchar_backward b cs cmd n r o l : getl b r = Some l -> 0 <= o -> n <> 0 ->
+  (if n <? 0 then negb (is_ft cmd) else is_ft cmd) = false ->
+  let rest := rev (firstn (Z.to_nat o) l) in
+  let m := Z.to_nat (Z.abs n) in
+  match lbuf_findchar b cs cmd n r o with
+  | Some o' => exists k, (k < length rest)%nat /\ code (nth k rest []) = code cs /\ count_m cs (firstn k rest) = (m - 1)%nat /\
+                         o' = o - 1 - Z.of_nat k + (if is_tT cmd then 1 else 0)
+  | None => (count_m cs rest < m)%nat
+  end.
+Proof.
+  intros El Ho Hn Hd rest m. unfold lbuf_findchar. rewrite El.
+  assert (Hdir : (0 <? (if n <? 0 then - (if is_ft cmd then 1 else -1) else (if is_ft cmd then 1 else -1))) = false).
+  { destruct (n <? 0); destruct (is_ft cmd); cbn in *; congruence. }
+  rewrite Hdir. destruct (Z.eqb_spec (Z.abs n) 0); [lia|].
+  fold rest. fold m. destruct (find_nth cs m rest 0) as [j|] eqn:F.
+  - apply find_nth_some in F; [|lia]. destruct F as (k & -> & Hk & Hc & Hm). exists k. repeat split; auto.
+    destruct (is_tT cmd); lia.
+  - eapply find_nth_none; [|exact F]. lia.
+Qed.
+
+(* ---------- where a successful motion lands (the mv > 0 branch of vi() followed by vi_wfix) ---------- *)
+Lemma ren_noeol_idem l x : line_wf l -> 0 <= x -> ren_noeol (Some l) (ren_noeol (Some l) x) = ren_noeol (Some l) x.
+Proof. intros HW Hx. apply ren_noeol_id; [exact HW|]. apply ren_noeol_ok; assumption. Qed.
+
+Lemma do_motion_land b rows a1 a2 k s r o cl cc pc l : buf_wf b -> 0 <= v_off s ->
+  vi_motion b rows (v_top s) (v_cl s) (v_cc s) (v_pcol s) (m_has a1 a2) (m_cnt a1 a2) k (v_row s)
+            (ren_noeol (getl b (v_row s)) (v_off s)) = MvOk r o cl cc pc ->
+  getl b r = Some l ->
+  exists s', do_motion b rows a1 a2 k s = Some s' /\ v_row s' = r /\
+    v_off s' = ren_noeol (Some l) (if is_jk k then ren_off l (v_col s) else if o <? 0 then count_space l else o) /\
+    v_col s' = (if is_bar k then pc else if is_jk k then v_col s else ren_pos l (v_off s')) /\
+    v_cl s' = cl /\ v_cc s' = cc.
+Proof.
+  intros HW Ho M El. unfold do_motion. fold (m_cnt a1 a2). fold (m_has a1 a2). rewrite M.
+  eexists. split; [reflexivity|]. unfold vi_wfix. cbn [v_row v_off v_col v_cl v_cc].
+  pose proof (getl_some _ _ _ El) as [Hr _].
+  destruct (Z.ltb_spec r 0); [lia|]. destruct (Z.geb_spec r (blen b)); [lia|]. cbn [orb].
+  rewrite El. unfold vi_col2off, vi_off2col, lbuf_indents. rewrite El.
+  pose proof (getl_wf _ _ _ HW El) as Hl.
+  apply vi_motion_off in M; [|apply ren_noeol_nonneg, Ho].
+  set (x := if is_jk k then ren_off l (v_col s) else if (o <? 0) && negb (is_jk k) then count_space l else o).
+  assert (Hx : 0 <= x).
+  { unfold x. destruct (is_jk k); [apply ren_off_nonneg|]. rewrite andb_true_r.
+    destruct (Z.ltb_spec o 0); [apply count_space_nonneg|lia]. }
+  assert (Ex : x = (if is_jk k then ren_off l (v_col s) else if o <? 0 then count_space l else o)).
+  { unfold x. destruct (is_jk k); [reflexivity|]. rewrite andb_true_r. reflexivity. }
+  rewrite <- Ex. rewrite ren_noeol_idem by assumption. repeat split; reflexivity.
+Qed.
+
+(* ---------- line motions: G + - _ H M L (and the row of j k) ---------- *)
+Definition line_target (b : buf) (rows top : Z) (has : bool) (cnt : Z) (k : mkey) (row : Z) : Z :=
+  let len := blen b in
+  Z.max 0 (match k with
+           | Kplus | Kj => Z.min (row + cnt) (len - 1)
+           | Kminus | Kk => Z.max (row - cnt) 0
+           | Kunder => Z.min (row + cnt - 1) (len - 1)
+           | KG => if has then cnt - 1 else len - 1
+           | KH => Z.min (top + cnt - 1) (len - 1)
+           | KL => Z.min (top + rows - cnt) (len - 1)
+           | KM => Z.min (top + rows / 2) (len - 1)
+           | _ => row
+           end).
+Definition is_linekey (k : mkey) : bool :=
+  match k with Kplus | Kminus | Kunder | KG | KH | KL | KM | Kj | Kk => true | _ => false end.
+
+Lemma vi_motionln_target b rows top has cnt k row : is_linekey k = true ->
+  vi_motionln b rows top has cnt k row = Some (Some (line_target b rows top has cnt k row)).
+Proof.
+  intro H. unfold vi_motionln, line_target. destruct k; try discriminate; cbv zeta; f_equal; f_equal;
+    match goal with |- (if ?x <? 0 then 0 else _) = _ => destruct (Z.ltb_spec x 0); try lia end.
+  all: try (replace (top + rows - 1 - cnt + 1) with (top + rows - cnt) in * by lia); lia.
+Qed.
+
+Lemma vi_motion_line b rows top cl cc pc has cnt k row off : is_linekey k = true ->
+  vi_motion b rows top cl cc pc has cnt k row off = MvOk (line_target b rows top has cnt k row) (-1) cl cc pc.
+Proof. intro H. unfold vi_motion. rewrite vi_motionln_target by exact H. reflexivity. Qed.
+
+(* first non-blank: what count_space computes *)
+Lemma count_space_spec l : let k := count_space l in
+  0 <= k <= slen l /\ (forall i, 0 <= i < k -> uc_isspace (chr_at l i) = true) /\
+  (k < slen l -> uc_isspace (chr_at l k) = false).
+Proof.
+  induction l as [|c l IH]; cbn [count_space]; cbv zeta.
+  - unfold slen. cbn. repeat split; try lia; intros; lia.
+  - destruct (uc_isspace c) eqn:Ec.
+    + cbv zeta in IH. destruct IH as (H1 & H2 & H3). unfold slen in *. cbn [length]. repeat split; try lia.
+      * intros i Hi. unfold chr_at. destruct (Z.ltb_spec i 0); [lia|].
+        destruct (Z.eq_dec i 0) as [->|Hn]; [exact Ec|].
+        replace (Z.to_nat i) with (S (Z.to_nat (i - 1))) by lia. cbn [nth].
+        specialize (H2 (i - 1) ltac:(lia)). unfold chr_at in H2. destruct (Z.ltb_spec (i - 1) 0); [lia|]. exact H2.
+      * intro Hk. specialize (H3 ltac:(lia)). unfold chr_at in *.
+        destruct (Z.ltb_spec (1 + count_space l) 0); [lia|]. destruct (Z.ltb_spec (count_space l) 0); [lia|].
+        replace (Z.to_nat (1 + count_space l)) with (S (Z.to_nat (count_space l))) by lia. exact H3.
+    + unfold slen. cbn [length]. repeat split; try lia. intros _. unfold chr_at. cbn. exact Ec.
+Qed.
+
+(* G + - _ H M L land on the first non-blank of the clamped row (when that row exists) *)
+Lemma line_motion_lands b rows a1 a2 k s l : buf_wf b -> 0 <= v_off s ->
+  is_linekey k = true -> is_jk k = false ->
+  let t := line_target b rows (v_top s) (m_has a1 a2) (m_cnt a1 a2) k (v_row s) in
+  getl b t = Some l ->
+  exists s', do_motion b rows a1 a2 k s = Some s' /\ v_row s' = t /\
+             v_off s' = ren_noeol (Some l) (count_space l) /\ v_col s' = ren_pos l (v_off s').
+Proof.
+  intros HW Ho Hk Hj t El.
+  destruct (do_motion_land b rows a1 a2 k s t (-1) (v_cl s) (v_cc s) (v_pcol s) l HW Ho) as (s' & E & H1 & H2 & H3 & _).
+  { apply vi_motion_line, Hk. } { exact El. }
+  exists s'. rewrite Hj in *. cbn in H2. assert (Hb : is_bar k = false) by (destruct k; try reflexivity; discriminate).
+  rewrite Hb in H3. auto.
+Qed.
+
+(* j k: the clamped row, the character covering the remembered column (else the last one), and
+   the remembered column survives *)
+Lemma jk_lands b rows a1 a2 k s l : buf_wf b -> 0 <= v_off s -> is_jk k = true ->
+  let t := line_target b rows (v_top s) (m_has a1 a2) (m_cnt a1 a2) k (v_row s) in
+  getl b t = Some l ->
+  exists s', do_motion b rows a1 a2 k s = Some s' /\ v_row s' = t /\
+             v_off s' = ren_noeol (Some l) (ren_off l (v_col s)) /\ v_col s' = v_col s.
+Proof.
+  intros HW Ho Hj t El.
+  assert (Hk : is_linekey k = true) by (destruct k; try reflexivity; discriminate).
+  destruct (do_motion_land b rows a1 a2 k s t (-1) (v_cl s) (v_cc s) (v_pcol s) l HW Ho) as (s' & E & H1 & H2 & H3 & _).
+  { apply vi_motion_line, Hk. } { exact El. }
+  exists s'. rewrite Hj in *. assert (Hb : is_bar k = false) by (destruct k; try reflexivity; discriminate).
+  rewrite Hb in H3. auto.
+Qed.
+
+(* ---------- 0 ^ $ | ---------- *)
+Lemma ren_noeol_zero l : line_wf l -> ren_noeol (Some l) 0 = 0.
+Proof. intro H. pose proof (wf_slen_pos l H). unfold ren_noeol. destruct (Z.geb_spec 0 (slen l)); [lia|]. reflexivity. Qed.
+Lemma ren_noeol_eol l : line_wf l -> ren_noeol (Some l) (slen l - 1) = Z.max 0 (slen l - 2).
+Proof.
+  intros (body & E & HF). pose proof (wf_slen l body E) as Hn. unfold ren_noeol.
+  destruct (Z.geb_spec (slen l - 1) (slen l)); [lia|].
+  assert (Hb : b0 (chr_at l (slen l - 1)) = 10%N).
+  { rewrite E at 1. replace (slen l - 1) with (Z.of_nat (length body)) by lia. apply wf_chr_last. }
+  rewrite Hb. cbn [N.eqb Pos.eqb]. destruct (Z.ltb_spec 0 (slen l - 1)); cbn [andb]; lia.
+Qed.
+
+Lemma col_motions_land b rows a1 a2 k s l : buf_wf b -> cursor_ok b (v_row s) (v_off s) ->
+  getl b (v_row s) = Some l ->
+  match k with K0 | Kcaret | Kdollar | Kbar => True | _ => False end ->
+  exists s', do_motion b rows a1 a2 k s = Some s' /\ v_row s' = v_row s /\
+    v_off s' = match k with
+               | K0 => 0
+               | Kcaret => ren_noeol (Some l) (count_space l)       (* first non-blank, else the last character *)
+               | Kdollar => Z.max 0 (slen l - 2)                     (* the last character before the terminator *)
+               | _ => ren_noeol (Some l) (ren_off l (m_cnt a1 a2 - 1))   (* the character covering column count-1 *)
+               end /\
+    v_col s' = match k with Kbar => m_cnt a1 a2 - 1 | _ => ren_pos l (v_off s') end.
+Proof.
+  intros HW HC El Hk. pose proof (cursor_ok_off _ _ _ HC) as Ho. pose proof (getl_wf _ _ _ HW El) as Hl.
+  assert (M : exists o pc, vi_motion b rows (v_top s) (v_cl s) (v_cc s) (v_pcol s) (m_has a1 a2) (m_cnt a1 a2) k (v_row s)
+            (ren_noeol (getl b (v_row s)) (v_off s)) = MvOk (v_row s) o (v_cl s) (v_cc s) pc /\ 0 <= o /\
+            o = match k with K0 => 0 | Kcaret => count_space l | Kdollar => slen l - 1 | _ => ren_off l (m_cnt a1 a2 - 1) end /\
+            pc = match k with Kbar => m_cnt a1 a2 - 1 | _ => v_pcol s end).
+  { destruct k; try contradiction; unfold vi_motion; cbn [vi_motionln].
+    - do 2 eexists. split; [reflexivity|]. repeat split; lia.
+    - do 2 eexists. split; [reflexivity|]. unfold lbuf_indents. rewrite El. repeat split. apply count_space_nonneg.
+    - do 2 eexists. split; [reflexivity|]. unfold lbuf_eol. rewrite El. pose proof (wf_slen_pos l Hl).
+      destruct (Z.eqb_spec (slen l) 0); [lia|]. repeat split; lia.
+    - do 2 eexists. split; [reflexivity|]. unfold vi_col2off. rewrite El. repeat split. apply ren_off_nonneg. }
+  destruct M as (o & pc & M & Ho' & Eo & Epc).
+  destruct (do_motion_land b rows a1 a2 k s (v_row s) o (v_cl s) (v_cc s) pc l HW Ho M El) as (s' & E & H1 & H2 & H3 & _).
+  exists s'. split; [exact E|]. split; [exact H1|].
+  assert (Hj : is_jk k = false) by (destruct k; try reflexivity; contradiction).
+  rewrite Hj in *. destruct (Z.ltb_spec o 0); [lia|].
+  destruct k; try contradiction; cbn [is_bar] in H3; subst o; split; auto.
+  - rewrite H2. apply ren_noeol_zero, Hl.
+  - rewrite H2. apply ren_noeol_eol, Hl.
+  - rewrite H3. exact Epc.
+Qed.
+
+(* ---------- the G finding, on the model ---------- *)
+Definition g_witness : buf := buf_of_bytes [32; 32; 97; 98; 10]%N.       (* "  ab\n" *)
+Lemma g_overrun_witness :
+  match run g_witness 23 [Mot 9 KG] init_vst, run g_witness 23 [Mot 1 KG] init_vst with
+  | Some s9, Some s1 => v_row s9 = 0 /\ v_row s1 = 0 /\ v_off s1 = 2 /\ v_off s9 = 0
+  | _, _ => False
+  end.
+Proof. vm_compute. repeat split; reflexivity. Qed.
